@@ -25,9 +25,9 @@ DECIDING_MONITORS = ["M-find"]
 MAXI = 2**53 - 1
 POOL = [
     None, True, False,
-    0, 1, -1, 2, 10, MAXI, -MAXI,
+    0, 1, -1, 2, 10, MAXI, -MAXI, 2**53, 2**53 + 1, -(2**53) - 1, 10**20, 255, 256, 2147483648,
     0.0, -0.0, 1.0, 1.5, -2.5, 1e300, 2.0, 1e-7, 0.3, 0.30000000000000004, 1.0000000001, 1700000000000.5, 1700000000000.25,
-    "", "a", "b", "ab", "A", "é", "\U0001F600", "￿", "\U00010000", "a\x00", "1", "true", "null",
+    "", "a", "b", "ab", "A", "é", "e\u0301", "\u212a", "K", "\u00df", "ss", "\U0001F600", "￿", "\U00010000", "a\x00", "1", "true", "null",
     [], [1], [1.0], [True], [1, 2], [2, 1], [[1]], [[True]], [None], ["a"], [{"k": 1}], [{"k": True}], [0], [False], [[]],
     {}, {"k": 1}, {"k": True}, {"k": 1.0}, {"k": 1, "j": 2}, {"j": 2, "k": 1}, {"k": [1]}, {"k": [True]}, {"k": None}, {"j": 1},
     {"k": {"z": 0}}, {"k": {"z": False}}, {"k": 0}, {"k": False},
@@ -55,7 +55,7 @@ def producers_for(v, side, R):
     out.append(("rel-neg-index", "@.arr_%s[-1]" % name, {"arr_" + name: ["pad", v]}))
     out.append(("value-call", "value(@.%s)" % name, {name: v}))
     out.append(("value-wild-call", "value(@.one_%s.*)" % name, {"one_" + name: [v]}))
-    if v is None or isinstance(v, (bool, int, float, str)):
+    if v is None or isinstance(v, (bool, float, str)) or (isinstance(v, int) and abs(v) <= MAXI):
         out.append(("literal", None, {}))
     out.append(("value-of-value-call", "value(@.w_%s[?value(@) == value(@)])" % name, {"w_" + name: [v]}) if v is None or isinstance(v, (bool, int, float, str)) else
                ("value-wild-call2", "value(@.one2_%s[*])" % name, {"one2_" + name: [v]}))
